@@ -21,6 +21,7 @@ META = dict(
 )
 META["text"] += " (R7, N) Contest's constructor stores risk_limit, assertions, winner, n_winners, candidates from its parameters."
 META["text"] += ' (R8 = C06.R3) the test is run with the bound installed from the same mvrs_to_data call as its data.'
+META["text"] += ' R8 also borrows C06.R4: the data of an assertion are the pairs its filter keeps, no others.'
 
 REL = "shangrla/core/Audit.py"
 
@@ -79,6 +80,7 @@ def run(chk):
     # R8: "what the configured test returns": the test is run with the bound that belongs to the very data it is given (C06.R3)
     from . import c06
     chk.borrow(c06.r3, {"C06.R3": "C09.R8"})
+    chk.borrow(c06.r4, {"C06.R4": "C09.R8"})  # ... and on exactly the cards that belong to the assertion's data
 
 
 # ---------------------------------------------------------------------------
